@@ -542,6 +542,9 @@ impl CommandHub {
 
             self.automatic_worker_spawn(workers_to_spawn);
 
+            #[cfg(sozu_verif)]
+            verif_hook::run_loop_hook(&mut self.server);
+
             let events = sessions_to_tick.into_iter().chain(
                 events
                     .into_iter()
@@ -691,6 +694,37 @@ impl CommandHub {
             self.in_flight.values().all(|id| *id != task_id),
             "handle_finishing_task must purge all in-flight entries for the finished task"
         );
+    }
+}
+
+/// Verification hook (compiled only with `--cfg sozu_verif`): a closure installed on the thread
+/// that runs [`CommandHub::run`] is called once per loop turn, at the point where the loop itself
+/// spawns workers, with the `Server`. A harness uses it to register a worker while the hub is
+/// running (`register_worker` on the state the hub holds at that moment), which the real code only
+/// does through `fork` + `exec`. Nothing is installed by sozu itself.
+#[cfg(sozu_verif)]
+pub mod verif_hook {
+    use std::cell::RefCell;
+
+    use super::Server;
+
+    type LoopHook = Box<dyn FnMut(&mut Server)>;
+
+    thread_local! {
+        static LOOP_HOOK: RefCell<Option<LoopHook>> = const { RefCell::new(None) };
+    }
+
+    /// Install (or replace) the closure called on every turn of this thread's hub loop.
+    pub fn install_loop_hook(hook: LoopHook) {
+        LOOP_HOOK.with(|slot| *slot.borrow_mut() = Some(hook));
+    }
+
+    pub(super) fn run_loop_hook(server: &mut Server) {
+        LOOP_HOOK.with(|slot| {
+            if let Some(hook) = slot.borrow_mut().as_mut() {
+                hook(server);
+            }
+        });
     }
 }
 
